@@ -3,11 +3,13 @@
 # Applies /verif/seeded/<seed-id>/patch.diff to a scratch worktree of /repo, runs the
 # given checks against it (VERIF_REPO), prints their verdict lines, removes the worktree.
 id=$1; tier=$2; shift 2
+# VERIF_HOME: which copy of the machinery runs (default /verif; a worktree of an earlier commit measures "as delivered")
+vh=${VERIF_HOME:-/verif}
 wt=$(mktemp -d /tmp/seedrun.XXXXXX)
 git -C /repo worktree add -q --detach "$wt" HEAD || exit 2
 if ! git -C "$wt" apply /verif/seeded/$id/patch.diff; then echo "patch does not apply"; git -C /repo worktree remove --force "$wt"; exit 2; fi
 for p in "$@"; do
-  out=$(VERIF_REPO="$wt" VERIF_DIR=/verif VERIF_EVIDENCE_DIR="$wt/.verif_ev" VERIF_REPLAY_DIR="$wt/.verif_rp" /verif/bin/verifcheck $p $tier 2>&1); rc=$?
+  out=$(VERIF_REPO="$wt" VERIF_DIR=$vh VERIF_EVIDENCE_DIR="$wt/.verif_ev" VERIF_REPLAY_DIR="$wt/.verif_rp" $vh/bin/verifcheck $p $tier 2>&1); rc=$?
   echo "== seed=$id check=$p tier=$tier exit=$rc"
   # verdict lines first (a long run of INCONCLUSIVE lines must not push them out of view)
   echo "$out" | grep -E "^VIOLATION|^  harness=" | cut -c1-260 | head -8
